@@ -1,4 +1,8 @@
 import SynapModel.Optim
+import SynapModel.OptimStore
+import Proofs.OptimStoreRefine
+import Proofs.OptimStoreShape
+import Proofs.OptimStoreRefineAdam
 import Mathlib.Algebra.Field.Basic
 import Mathlib.Tactic.Ring
 import Mathlib.Algebra.BigOperators.Group.Finset.Basic
@@ -404,5 +408,462 @@ theorem sgd_plain_closed (lr : α) (θ : α) (gs : List α) :
 example (lr θ g1 g2 : α) :
     [g1, g2].foldl (sgdSpecStepPlain lr 0 false) θ = θ - lr * (g1 + g2) := by
   simp [sgdSpecStepPlain]; ring
+
+/-! ## The store model: buffers with identities (`Synap.OptimStore`)
+
+`Synap.Optim` follows values; `Synap.OptimStore` follows *which array object* holds them: every
+statement of optimizers.py / the backward closures is either allocating (fresh buffer) or in place.
+The theorems below are about every reachable state of that model, for all hyper-parameters, all
+numbers and shapes of parameters, all histories. -/
+section Store
+open Proofs.OptimStore
+open Synap.OptimStore (Store slot rdBuf Role PS BufId)
+
+/-- an event of the store model (gradients are whole arrays) -/
+abbrev SEv (α : Type) := Synap.OptimStore.Ev α
+
+/-- **Separation at every reachable state.**  From a state where every place (parameter data,
+    gradient, momentum buffer / first moment, second moment) holds a buffer of the heap and no two
+    places hold the same buffer, every history of SGD events and every history of Adam / AdamW
+    events leads to such a state again. -/
+theorem store_separation (s0 : Store α) (h0 : Inv s0) (evs : List (SEv α)) :
+    (∀ c : SGDCfg α, Inv (Synap.OptimStore.sgdRun c s0 evs)) ∧
+    (∀ c : AdamCfg α, Inv (Synap.OptimStore.adamRun c s0 evs)) :=
+  ⟨fun c => (run_generic (Synap.OptimStore.sgdEv c) (fun s e h => sgdEv_moves c s h e) evs s0 h0).1,
+   fun c => (run_generic (Synap.OptimStore.adamEv c) (fun s e h => adamEv_moves c s h e) evs s0 h0).1⟩
+
+/-- the same in the words of the property: after any history two different places never hold the
+    same buffer -/
+theorem store_separation_pairwise (s0 : Store α) (h0 : Inv s0) (evs : List (SEv α)) (c : SGDCfg α)
+    (ca : AdamCfg α) (r r' : Role) (i i' : Nat) (hne : ¬ (r = r' ∧ i = i')) :
+    (∀ x, slot (Synap.OptimStore.sgdRun c s0 evs) r i = some x →
+      slot (Synap.OptimStore.sgdRun c s0 evs) r' i' ≠ some x) ∧
+    (∀ x, slot (Synap.OptimStore.adamRun ca s0 evs) r i = some x →
+      slot (Synap.OptimStore.adamRun ca s0 evs) r' i' ≠ some x) :=
+  ⟨fun x h h' => hne (((store_separation s0 h0 evs).1 c).sep r i r' i' x h h'),
+   fun x h h' => hne (((store_separation s0 h0 evs).2 ca).sep r i r' i' x h h')⟩
+
+/-- a freshly built model (parameter `i` holds buffer `i`, no gradients, a new optimizer) is separated -/
+theorem store_separation_initial (arrs : List (List α)) (rgs : List Bool) (h : rgs.length ≤ arrs.length) :
+    Inv (Synap.OptimStore.mk arrs rgs) := inv_mk arrs rgs h
+
+/-- **Optimizer state is never corrupted by gradient accumulation.**  At a separated state (hence
+    at every reachable state, `store_separation`), every place other than a gradient — parameter
+    data, momentum buffers, Adam moments — keeps its buffer *and its content* across a backward
+    call (in-place accumulation `x._grad += g`, or the leaf-root form), and across `zero_grad`. -/
+theorem state_not_corrupted_by_accumulation {s : Store α} (hI : Inv s) {r : Role} {j : Nat} {x : BufId}
+    (hr : r ≠ .grad) (hx : slot s r j = some x) :
+    (∀ i g, slot (Synap.OptimStore.accumulate s i g) r j = some x ∧
+        rdBuf (Synap.OptimStore.accumulate s i g).heap x = rdBuf s.heap x) ∧
+    (∀ i g, slot (Synap.OptimStore.accumulateRoot s i g) r j = some x ∧
+        rdBuf (Synap.OptimStore.accumulateRoot s i g).heap x = rdBuf s.heap x) ∧
+    (slot (Synap.OptimStore.zeroGrad s) r j = some x ∧
+        rdBuf (Synap.OptimStore.zeroGrad s).heap x = rdBuf s.heap x) :=
+  ⟨fun i g => accumulate_keeps hI i g hr hx, fun i g => accumulateRoot_keeps hI i g hr hx,
+   zeroGrad_keeps hI hr hx⟩
+
+/-- ... spelled out at the reachable states of an SGD run and of an Adam / AdamW run -/
+theorem state_not_corrupted_reachable (s0 : Store α) (h0 : Inv s0) (evs : List (SEv α))
+    (c : SGDCfg α) (ca : AdamCfg α) (r : Role) (j : Nat) (x : BufId) (hr : r ≠ .grad) (i : Nat) (g : List α) :
+    (slot (Synap.OptimStore.sgdRun c s0 evs) r j = some x →
+      slot (Synap.OptimStore.sgdRun c s0 (evs ++ [.backward i g])) r j = some x ∧
+      rdBuf (Synap.OptimStore.sgdRun c s0 (evs ++ [.backward i g])).heap x
+        = rdBuf (Synap.OptimStore.sgdRun c s0 evs).heap x) ∧
+    (slot (Synap.OptimStore.adamRun ca s0 evs) r j = some x →
+      slot (Synap.OptimStore.adamRun ca s0 (evs ++ [.backward i g])) r j = some x ∧
+      rdBuf (Synap.OptimStore.adamRun ca s0 (evs ++ [.backward i g])).heap x
+        = rdBuf (Synap.OptimStore.adamRun ca s0 evs).heap x) := by
+  constructor
+  · intro hx
+    simp only [Synap.OptimStore.sgdRun, List.foldl_append, List.foldl_cons, List.foldl_nil]
+    exact accumulate_keeps ((store_separation s0 h0 evs).1 c) i g hr hx
+  · intro hx
+    simp only [Synap.OptimStore.adamRun, List.foldl_append, List.foldl_cons, List.foldl_nil]
+    exact accumulate_keeps ((store_separation s0 h0 evs).2 ca) i g hr hx
+
+/-- `zero_grad` installs new arrays and overwrites nothing: the arrays that were the gradients keep
+    their content (whoever still holds them sees no change) -/
+theorem zero_grad_overwrites_nothing {s : Store α} (hI : Inv s) {x : BufId} (hx : x < s.heap.length) :
+    rdBuf (Synap.OptimStore.zeroGrad s).heap x = rdBuf s.heap x := zeroGrad_overwrites_nothing hI hx
+
+/-- **A step changes no gradient buffer**: each parameter keeps its gradient array, with the same
+    content, across `SGD.step` and `Adam.step` / `AdamW.step`. -/
+theorem step_keeps_gradients {s : Store α} (hI : Inv s) {j : Nat} {x : BufId}
+    (hx : slot s .grad j = some x) :
+    (∀ c : SGDCfg α, slot (Synap.OptimStore.sgdStep c s) .grad j = some x ∧
+        rdBuf (Synap.OptimStore.sgdStep c s).heap x = rdBuf s.heap x) ∧
+    (∀ c : AdamCfg α, slot (Synap.OptimStore.adamStep c s) .grad j = some x ∧
+        rdBuf (Synap.OptimStore.adamStep c s).heap x = rdBuf s.heap x) :=
+  ⟨fun c => sgdStep_keeps_grads c hI hx, fun c => adamStep_keeps_grads c hI hx⟩
+
+/-- **Updates are applied in place and touch nothing else.**  After any history (SGD; Adam/AdamW):
+    (1) every parameter's data buffer id is the one it started with;
+    (2) a buffer of the initial heap that no place holds — an array the optimizer was not given —
+        keeps its content. -/
+theorem updates_in_place (s0 : Store α) (h0 : Inv s0) (evs : List (SEv α)) :
+    (∀ c : SGDCfg α,
+      (∀ j, slot (Synap.OptimStore.sgdRun c s0 evs) .data j = slot s0 .data j) ∧
+      (∀ x, x < s0.heap.length → (∀ r j, slot s0 r j ≠ some x) →
+        rdBuf (Synap.OptimStore.sgdRun c s0 evs).heap x = rdBuf s0.heap x)) ∧
+    (∀ c : AdamCfg α,
+      (∀ j, slot (Synap.OptimStore.adamRun c s0 evs) .data j = slot s0 .data j) ∧
+      (∀ x, x < s0.heap.length → (∀ r j, slot s0 r j ≠ some x) →
+        rdBuf (Synap.OptimStore.adamRun c s0 evs).heap x = rdBuf s0.heap x)) := by
+  constructor
+  · intro c
+    have h := run_generic (Synap.OptimStore.sgdEv c) (fun s e h => sgdEv_moves c s h e) evs s0 h0
+    exact ⟨h.2.1, h.2.2.2⟩
+  · intro c
+    have h := run_generic (Synap.OptimStore.adamEv c) (fun s e h => adamEv_moves c s h e) evs s0 h0
+    exact ⟨h.2.1, h.2.2.2⟩
+
+/-- (3) a step leaves the data of a parameter that does not require grad, or that has no
+    gradient, untouched — whatever the weight decay; its record (ids, flag) is never changed by a step -/
+theorem step_keeps_frozen {s : Store α} (hI : Inv s) {j : Nat} {p : PS} (hp : s.ps[j]? = some p)
+    (h : p.rg = false ∨ p.grad = none) :
+    (∀ c : SGDCfg α, rdBuf (Synap.OptimStore.sgdStep c s).heap p.data = rdBuf s.heap p.data ∧
+        (Synap.OptimStore.sgdStep c s).ps = s.ps) ∧
+    (∀ c : AdamCfg α, rdBuf (Synap.OptimStore.adamStep c s).heap p.data = rdBuf s.heap p.data ∧
+        (Synap.OptimStore.adamStep c s).ps = s.ps) :=
+  ⟨fun c => ⟨sgdStep_keeps_inactive c hI hp h, (sgdStep_moves c s hI).2⟩,
+   fun c => ⟨adamStep_keeps_inactive c hI hp h, (adamStep_moves c s hI).2⟩⟩
+
+/-! ### The store model refines the value-level model, element by element -/
+
+/-- the value-level event that element `k` sees -/
+def evAt (k : Nat) : SEv α → Ev α
+  | .backward i g => .backward i (g.getD k 0)
+  | .backwardRoot i g => .backward i (g.getD k 0)
+  | .zeroGrad => .zeroGrad
+  | .step => .step
+  | .setRg i b => .setRg i b
+
+/-- every gradient array delivered to parameter `i` has an element `k` (shapes match) -/
+def CoversEv (i k : Nat) : SEv α → Prop
+  | .backward j g => j = i → k < g.length
+  | .backwardRoot j g => j = i → k < g.length
+  | _ => True
+
+theorem getD_of_lt (g : List α) (k : Nat) (h : k < g.length) : g[k]? = some (g.getD k 0) := by
+  simp [List.getD, List.getElem?_eq_getElem h]
+
+/-- **Every event commutes with the abstraction** (SGD): if `q`, `b` are element `k` of parameter
+    `i` and of its momentum buffer in `s`, then after the store event they are what the
+    value-level event makes of `q`, `b`. -/
+theorem store_event_refines_sgd (c : SGDCfg α) {s : Store α} (hI : Inv s) {i k : Nat} {q : P α}
+    {b : Option α} (a : AbsP s i k q) (ab : AbsB s i k b) (e : SEv α) (hc : CoversEv i k e) :
+    AbsP (Synap.OptimStore.sgdEv c s e) i k (sim1 (sgdUpdate c) i (q, b) (evAt k e)).1 ∧
+    AbsB (Synap.OptimStore.sgdEv c s e) i k (sim1 (sgdUpdate c) i (q, b) (evAt k e)).2 := by
+  cases e with
+  | backward j g =>
+    simp only [Synap.OptimStore.sgdEv, Synap.OptimStore.sgdEvG, evAt, sim1]
+    by_cases hj : j = i
+    · subst hj
+      rw [if_pos rfl]
+      exact accumulate_self hI g (getD_of_lt g k (hc rfl)) a ab
+    · rw [if_neg hj]
+      exact accumulate_other hI g hj a ab
+  | backwardRoot j g =>
+    simp only [Synap.OptimStore.sgdEv, Synap.OptimStore.sgdEvG, evAt, sim1]
+    by_cases hj : j = i
+    · subst hj
+      rw [if_pos rfl]
+      exact accumulateRoot_self (fun x => zero_add x) hI g (getD_of_lt g k (hc rfl)) a ab
+    · rw [if_neg hj]
+      exact accumulateRoot_other hI g hj a ab
+  | zeroGrad =>
+    simp only [Synap.OptimStore.sgdEv, Synap.OptimStore.sgdEvG, evAt, sim1]
+    exact zeroGrad_abs hI a ab
+  | setRg j r =>
+    simp only [Synap.OptimStore.sgdEv, Synap.OptimStore.sgdEvG, evAt, sim1]
+    exact setRg_abs r a ab
+  | step =>
+    simp only [Synap.OptimStore.sgdEv, Synap.OptimStore.sgdEvG, evAt, sim1]
+    rw [← sgdStepP_eq]
+    exact sgdStep_abs c hI a ab
+
+/-- **The store model refines the value-level model** (SGD, all variants): for any history whose
+    gradient arrays have an element `k` for parameter `i`, element `k` of parameter `i` and of its
+    momentum buffer after the store run are exactly what the value-level model `Synap.Optim`
+    computes from the initial element on the sliced history — for *any* list `ps` of value-level
+    parameters that has `q` at index `i` (the other parameters do not matter). -/
+theorem store_refines_value_model (c : SGDCfg α) (s0 : Store α) (h0 : Inv s0) (evs : List (SEv α))
+    (i k : Nat) (hc : ∀ e ∈ evs, CoversEv i k e) (q : P α) (a : AbsP s0 i k q) (ab : AbsB s0 i k none)
+    (ps : List (P α)) (hps : ps[i]? = some q) :
+    ∃ q' b', (sgdRun c (sgdInit ps) (evs.map (evAt k))).ps[i]? = some q' ∧
+      (sgdRun c (sgdInit ps) (evs.map (evAt k))).bufs[i]? = some b' ∧
+      AbsP (Synap.OptimStore.sgdRun c s0 evs) i k q' ∧ AbsB (Synap.OptimStore.sgdRun c s0 evs) i k b' := by
+  obtain ⟨h1, h2⟩ := sgdRun_sim c (evs.map (evAt k)) (sgdInit ps) i q none hps (sgdInit_bufs ps i q hps)
+  refine ⟨_, _, h1, h2, ?_⟩
+  have key : ∀ (evs : List (SEv α)) (s : Store α) (q : P α) (b : Option α), Inv s →
+      (∀ e ∈ evs, CoversEv i k e) → AbsP s i k q → AbsB s i k b →
+      AbsP (Synap.OptimStore.sgdRun c s evs) i k ((evs.map (evAt k)).foldl (sim1 (sgdUpdate c) i) (q, b)).1 ∧
+      AbsB (Synap.OptimStore.sgdRun c s evs) i k ((evs.map (evAt k)).foldl (sim1 (sgdUpdate c) i) (q, b)).2 := by
+    intro evs
+    induction evs with
+    | nil => intro s q b _ _ a ab; exact ⟨a, ab⟩
+    | cons e es ih =>
+      intro s q b hI hc a ab
+      obtain ⟨a', ab'⟩ := store_event_refines_sgd c hI a ab e (hc e (List.mem_cons_self ..))
+      have hI' : Inv (Synap.OptimStore.sgdEv c s e) := by
+        obtain ⟨W, C, m, _⟩ := sgdEv_moves c s hI e; exact m.inv hI
+      exact ih _ _ _ hI' (fun e' he' => hc e' (List.mem_cons_of_mem _ he')) a' ab'
+  exact key evs s0 q none h0 hc a ab
+
+/-- **Transferred trajectory theorem** (`sgd_refines` on the store model): with momentum, every
+    element of every parameter's data buffer — the array object the model holds, updated in place —
+    follows the documented SGD recursion on its effective gradients. -/
+theorem store_sgd_refines (c : SGDCfg α) (hcfg : SGDCfg.Consistent c) (hm : c.useMom = true)
+    (s0 : Store α) (h0 : Inv s0) (evs : List (SEv α)) (i k : Nat) (hc : ∀ e ∈ evs, CoversEv i k e)
+    (q : P α) (a : AbsP s0 i k q) (ab : AbsB s0 i k none) :
+    ∃ p, (Synap.OptimStore.sgdRun c s0 evs).ps[i]? = some p ∧
+      val (Synap.OptimStore.sgdRun c s0 evs).heap p.data k
+        = some ((effGrads i q.rg q.grad (evs.map (evAt k))).foldl
+            (sgdSpecStep c.lr c.momentum c.dampening c.weightDecay c.nesterov c.maximize) (q.θ, none)).1 := by
+  have hps : (List.replicate (i + 1) q)[i]? = some q := by
+    rw [List.getElem?_replicate]; simp
+  obtain ⟨q', b', h1, _, ⟨p, hp, hθ, _, _⟩, _⟩ :=
+    store_refines_value_model c s0 h0 evs i k hc q a ab (List.replicate (i + 1) q) hps
+  obtain ⟨q'', h1', hθ'⟩ := sgd_refines c hcfg hm (List.replicate (i + 1) q) (evs.map (evAt k)) i q hps
+  rw [h1] at h1'; cases h1'
+  exact ⟨p, hp, by rw [hθ, hθ']⟩
+
+/-- ... and plain SGD (`sgd_plain_refines` on the store model) -/
+theorem store_sgd_plain_refines (c : SGDCfg α) (hcfg : SGDCfg.Consistent c) (hm : c.useMom = false)
+    (s0 : Store α) (h0 : Inv s0) (evs : List (SEv α)) (i k : Nat) (hc : ∀ e ∈ evs, CoversEv i k e)
+    (q : P α) (a : AbsP s0 i k q) (ab : AbsB s0 i k none) :
+    ∃ p, (Synap.OptimStore.sgdRun c s0 evs).ps[i]? = some p ∧
+      val (Synap.OptimStore.sgdRun c s0 evs).heap p.data k
+        = some ((effGrads i q.rg q.grad (evs.map (evAt k))).foldl
+            (sgdSpecStepPlain c.lr c.weightDecay c.maximize) q.θ) := by
+  have hps : (List.replicate (i + 1) q)[i]? = some q := by
+    rw [List.getElem?_replicate]; simp
+  obtain ⟨q', b', h1, _, ⟨p, hp, hθ, _, _⟩, _⟩ :=
+    store_refines_value_model c s0 h0 evs i k hc q a ab (List.replicate (i + 1) q) hps
+  obtain ⟨q'', h1', hθ'⟩ := sgd_plain_refines c hcfg hm (List.replicate (i + 1) q) (evs.map (evAt k)) i q hps
+  rw [h1] at h1'; cases h1'
+  exact ⟨p, hp, by rw [hθ, hθ']⟩
+
+/-- the shape of a parameter never shrinks below an element that every gradient array covers:
+    element `k` of the data buffer still exists after the history -/
+theorem data_element_kept (c : SGDCfg α) (s0 : Store α) (h0 : Inv s0) (evs : List (SEv α))
+    (i k : Nat) (hc : ∀ e ∈ evs, CoversEv i k e) (q : P α) (a : AbsP s0 i k q) (ab : AbsB s0 i k none) :
+    ∃ p, (Synap.OptimStore.sgdRun c s0 evs).ps[i]? = some p ∧
+      k < (rdBuf (Synap.OptimStore.sgdRun c s0 evs).heap p.data).length := by
+  have hps : (List.replicate (i + 1) q)[i]? = some q := by
+    rw [List.getElem?_replicate]; simp
+  obtain ⟨q', b', _, _, ⟨p, hp, hθ, _, _⟩, _⟩ :=
+    store_refines_value_model c s0 h0 evs i k hc q a ab (List.replicate (i + 1) q) hps
+  refine ⟨p, hp, ?_⟩
+  unfold val at hθ
+  exact (List.getElem?_eq_some_iff.mp hθ).1
+
+/-- **No array ever gets longer**: in-place statements are elementwise over the old content,
+    allocating statements do not touch existing buffers (SGD; Adam / AdamW; any history). -/
+theorem arrays_never_grow (s0 : Store α) (evs : List (SEv α)) (x : BufId) (hx : x < s0.heap.length) :
+    (∀ c : SGDCfg α, (rdBuf (Synap.OptimStore.sgdRun c s0 evs).heap x).length ≤ (rdBuf s0.heap x).length) ∧
+    (∀ c : AdamCfg α, (rdBuf (Synap.OptimStore.adamRun c s0 evs).heap x).length ≤ (rdBuf s0.heap x).length) :=
+  ⟨fun c => (sgdRun_noGrow c s0 evs).2 x hx, fun c => (adamRun_noGrow c s0 evs).2 x hx⟩
+
+/-- **Shape kept** (SGD): when every gradient array delivered to parameter `i` covers the shape
+    of its data (and so does the initial gradient buffer, if any; new optimizer), then after any
+    history parameter `i` holds the same data buffer, of the same length. -/
+theorem data_shape_kept (c : SGDCfg α) (s0 : Store α) (h0 : Inv s0) (evs : List (SEv α)) (i : Nat)
+    (p0 : PS) (hp0 : s0.ps[i]? = some p0)
+    (hc : ∀ k, k < (rdBuf s0.heap p0.data).length →
+      (∀ e ∈ evs, CoversEv i k e) ∧ (∃ q, AbsP s0 i k q) ∧ AbsB s0 i k none) :
+    ∃ p, (Synap.OptimStore.sgdRun c s0 evs).ps[i]? = some p ∧ p.data = p0.data ∧
+      (rdBuf (Synap.OptimStore.sgdRun c s0 evs).heap p.data).length = (rdBuf s0.heap p0.data).length := by
+  have hd := ((updates_in_place s0 h0 evs).1 c).1 i
+  rw [slot_data_of hp0] at hd
+  simp only [slot] at hd
+  cases hp : (Synap.OptimStore.sgdRun c s0 evs).ps[i]? with
+  | none => rw [hp] at hd; cases hd
+  | some p =>
+    rw [hp] at hd
+    have hpd : p.data = p0.data := by simpa using hd
+    refine ⟨p, rfl, hpd, Nat.le_antisymm ?_ (Nat.le_of_not_lt fun hlt => ?_)⟩
+    · rw [hpd]
+      exact (sgdRun_noGrow c s0 evs).2 p0.data (h0.bounded .data i _ (slot_data_of hp0))
+    · obtain ⟨hcov, ⟨q, a⟩, ab⟩ := hc _ hlt
+      obtain ⟨p', hp', hk⟩ := data_element_kept c s0 h0 evs i _ hcov q a ab
+      rw [hp] at hp'; cases hp'
+      exact Nat.lt_irrefl _ hk
+
+/-! ### Adam / AdamW on the store model -/
+
+/-- **Every event commutes with the abstraction** (Adam / AdamW): `q` = element `k` of parameter
+    `i`, `mo` = element `k` of its two moment arrays (a moment that is still the integer 0 reads as
+    0) together with its step counter. -/
+theorem store_event_refines_adam (c : AdamCfg α) {s : Store α} (hI : Inv s) {i k : Nat} {q : P α}
+    {mo : Moments α} (a : AbsP s i k q) (am : AbsMo s i k mo) (e : SEv α) (hc : CoversEv i k e) :
+    AbsP (Synap.OptimStore.adamEv c s e) i k (sim1 (adamUpdate c) i (q, mo) (evAt k e)).1 ∧
+    AbsMo (Synap.OptimStore.adamEv c s e) i k (sim1 (adamUpdate c) i (q, mo) (evAt k e)).2 := by
+  cases e with
+  | backward j g =>
+    simp only [Synap.OptimStore.adamEv, evAt, sim1]
+    exact accumulate_absPMo hI j g (fun h => getD_of_lt g k (hc h)) a am
+  | backwardRoot j g =>
+    simp only [Synap.OptimStore.adamEv, evAt, sim1]
+    exact accumulateRoot_absPMo (fun x => zero_add x) hI j g (fun h => getD_of_lt g k (hc h)) a am
+  | zeroGrad =>
+    simp only [Synap.OptimStore.adamEv, evAt, sim1]
+    exact zeroGrad_absPMo hI a am
+  | setRg j r =>
+    simp only [Synap.OptimStore.adamEv, evAt, sim1]
+    exact setRg_absPMo r a am
+  | step =>
+    simp only [Synap.OptimStore.adamEv, evAt, sim1]
+    rw [← adamStepP_eq]
+    exact adamStep_abs c hI a am
+
+/-- **The store model refines the value-level model** (Adam / AdamW). -/
+theorem store_refines_value_model_adam (c : AdamCfg α) (s0 : Store α) (h0 : Inv s0) (evs : List (SEv α))
+    (i k : Nat) (hc : ∀ e ∈ evs, CoversEv i k e) (q : P α) (a : AbsP s0 i k q)
+    (am : AbsMo s0 i k ⟨0, 0, 0⟩) (ps : List (P α)) (hps : ps[i]? = some q) :
+    ∃ q' mo', (adamRun c (adamInit ps) (evs.map (evAt k))).ps[i]? = some q' ∧
+      (adamRun c (adamInit ps) (evs.map (evAt k))).mos[i]? = some mo' ∧
+      AbsP (Synap.OptimStore.adamRun c s0 evs) i k q' ∧ AbsMo (Synap.OptimStore.adamRun c s0 evs) i k mo' := by
+  obtain ⟨h1, h2⟩ := adamRun_sim c (evs.map (evAt k)) (adamInit ps) i q ⟨0, 0, 0⟩ hps (adamInit_mos ps i q hps)
+  refine ⟨_, _, h1, h2, ?_⟩
+  have key : ∀ (evs : List (SEv α)) (s : Store α) (q : P α) (mo : Moments α), Inv s →
+      (∀ e ∈ evs, CoversEv i k e) → AbsP s i k q → AbsMo s i k mo →
+      AbsP (Synap.OptimStore.adamRun c s evs) i k ((evs.map (evAt k)).foldl (sim1 (adamUpdate c) i) (q, mo)).1 ∧
+      AbsMo (Synap.OptimStore.adamRun c s evs) i k ((evs.map (evAt k)).foldl (sim1 (adamUpdate c) i) (q, mo)).2 := by
+    intro evs
+    induction evs with
+    | nil => intro s q mo _ _ a am; exact ⟨a, am⟩
+    | cons e es ih =>
+      intro s q mo hI hc a am
+      obtain ⟨a', am'⟩ := store_event_refines_adam c hI a am e (hc e (List.mem_cons_self ..))
+      have hI' : Inv (Synap.OptimStore.adamEv c s e) := by
+        obtain ⟨W, C, m, _⟩ := adamEv_moves c s hI e; exact m.inv hI
+      exact ih _ _ _ hI' (fun e' he' => hc e' (List.mem_cons_of_mem _ he')) a' am'
+  exact key evs s0 q ⟨0, 0, 0⟩ h0 hc a am
+
+/-- **Transferred trajectory theorem** (`adam_refines` on the store model): every element of every
+    parameter's data buffer follows the documented Adam / AdamW recursion on its effective
+    gradients, with the bias-correction exponent counting the updates applied to that parameter. -/
+theorem store_adam_refines (c : AdamCfg α) (hcfg : c.useWd = false → c.weightDecay = 0)
+    (s0 : Store α) (h0 : Inv s0) (evs : List (SEv α)) (i k : Nat) (hc : ∀ e ∈ evs, CoversEv i k e)
+    (q : P α) (a : AbsP s0 i k q) (am : AbsMo s0 i k ⟨0, 0, 0⟩) :
+    ∃ p, (Synap.OptimStore.adamRun c s0 evs).ps[i]? = some p ∧
+      val (Synap.OptimStore.adamRun c s0 evs).heap p.data k
+        = some ((effGrads i q.rg q.grad (evs.map (evAt k))).foldl (adamSpecStep c) (q.θ, ⟨0, 0, 0⟩)).1 := by
+  have hps : (List.replicate (i + 1) q)[i]? = some q := by
+    rw [List.getElem?_replicate]; simp
+  obtain ⟨q', mo', h1, _, ⟨p, hp, hθ, _, _⟩, _⟩ :=
+    store_refines_value_model_adam c s0 h0 evs i k hc q a am (List.replicate (i + 1) q) hps
+  obtain ⟨q'', h1', hθ'⟩ := adam_refines c hcfg (List.replicate (i + 1) q) (evs.map (evAt k)) i q hps
+  rw [h1] at h1'; cases h1'
+  exact ⟨p, hp, by rw [hθ, hθ']⟩
+
+/-- **Shape kept** (Adam / AdamW). -/
+theorem data_shape_kept_adam (c : AdamCfg α) (s0 : Store α) (h0 : Inv s0) (evs : List (SEv α)) (i : Nat)
+    (p0 : PS) (hp0 : s0.ps[i]? = some p0)
+    (hc : ∀ k, k < (rdBuf s0.heap p0.data).length →
+      (∀ e ∈ evs, CoversEv i k e) ∧ (∃ q, AbsP s0 i k q) ∧ AbsMo s0 i k ⟨0, 0, 0⟩) :
+    ∃ p, (Synap.OptimStore.adamRun c s0 evs).ps[i]? = some p ∧ p.data = p0.data ∧
+      (rdBuf (Synap.OptimStore.adamRun c s0 evs).heap p.data).length = (rdBuf s0.heap p0.data).length := by
+  have hd := ((updates_in_place s0 h0 evs).2 c).1 i
+  rw [slot_data_of hp0] at hd
+  simp only [slot] at hd
+  cases hp : (Synap.OptimStore.adamRun c s0 evs).ps[i]? with
+  | none => rw [hp] at hd; cases hd
+  | some p =>
+    rw [hp] at hd
+    have hpd : p.data = p0.data := by simpa using hd
+    refine ⟨p, rfl, hpd, Nat.le_antisymm ?_ (Nat.le_of_not_lt fun hlt => ?_)⟩
+    · rw [hpd]
+      exact (adamRun_noGrow c s0 evs).2 p0.data (h0.bounded .data i _ (slot_data_of hp0))
+    · obtain ⟨hcov, ⟨q, a⟩, am⟩ := hc _ hlt
+      have hps : (List.replicate (i + 1) q)[i]? = some q := by
+        rw [List.getElem?_replicate]; simp
+      obtain ⟨q', mo', _, _, ⟨p', hp', hθ, _, _⟩, _⟩ :=
+        store_refines_value_model_adam c s0 h0 evs i _ hcov q a am (List.replicate (i + 1) q) hps
+      rw [hp] at hp'; cases hp'
+      unfold val at hθ
+      exact Nat.lt_irrefl _ (List.getElem?_eq_some_iff.mp hθ).1
+
+end Store
+
+/-! ### What the private copy buys: the defective variant (first momentum buffer = the gradient array) -/
+section Counterexample
+open Proofs.OptimStore
+open Synap.OptimStore (Store slot rdBuf Role)
+
+/-- lr = 1, momentum = 1, no dampening, no weight decay, over the integers -/
+def cexCfg : SGDCfg Int := ⟨1, 1, 0, 0, false, true, false, false⟩
+/-- backward, step, backward (no zero_grad), step on one parameter `[0]` with gradient `[1]` each time -/
+def cexEvs : List (Synap.OptimStore.Ev Int) := [.backward 0 [1], .step, .backward 0 [1], .step]
+def cexInit : Store Int := Synap.OptimStore.mk [[0]] [true]
+
+/-- **Counterexample for the variant that stores `grad` itself as first momentum buffer**
+    (`sgdStepAliased`), machine-checked by evaluation:
+    after backward, step the momentum place holds the gradient's buffer (separation is broken);
+    the next backward — without `zero_grad` — changes the momentum buffer's content from `[1]` to
+    `[2]`; after the second step the momentum buffer holds `[4]` and the parameter `[-5]`, whereas
+    the value-level model (and the store model with the private copy) give `3` and `-4`. -/
+theorem aliased_first_buffer_counterexample :
+    -- the alias
+    slot (Synap.OptimStore.sgdRunAliased cexCfg cexInit (cexEvs.take 2)) .b1 0 = some 1 ∧
+    slot (Synap.OptimStore.sgdRunAliased cexCfg cexInit (cexEvs.take 2)) .grad 0 = some 1 ∧
+    ¬ Inv (Synap.OptimStore.sgdRunAliased cexCfg cexInit (cexEvs.take 2)) ∧
+    -- the corruption by gradient accumulation
+    rdBuf (Synap.OptimStore.sgdRunAliased cexCfg cexInit (cexEvs.take 2)).heap 1 = [1] ∧
+    slot (Synap.OptimStore.sgdRunAliased cexCfg cexInit (cexEvs.take 3)) .b1 0 = some 1 ∧
+    rdBuf (Synap.OptimStore.sgdRunAliased cexCfg cexInit (cexEvs.take 3)).heap 1 = [2] ∧
+    -- the wrong trajectory
+    slot (Synap.OptimStore.sgdRunAliased cexCfg cexInit cexEvs) .b1 0 = some 2 ∧
+    rdBuf (Synap.OptimStore.sgdRunAliased cexCfg cexInit cexEvs).heap 2 = [4] ∧
+    rdBuf (Synap.OptimStore.sgdRunAliased cexCfg cexInit cexEvs).heap 0 = [-5] ∧
+    -- the value-level model
+    (sgdRun cexCfg (sgdInit [⟨0, none, true⟩]) [.backward 0 1, .step, .backward 0 1, .step]).bufs = [some 3] ∧
+    (sgdRun cexCfg (sgdInit [⟨0, none, true⟩]) [.backward 0 1, .step, .backward 0 1, .step]).ps.map (·.θ) = [-4] ∧
+    -- the code (private copy): same as the value-level model, momentum buffer untouched by the backward
+    rdBuf (Synap.OptimStore.sgdRun cexCfg cexInit (cexEvs.take 2)).heap 2 = [1] ∧
+    rdBuf (Synap.OptimStore.sgdRun cexCfg cexInit (cexEvs.take 3)).heap 2 = [1] ∧
+    slot (Synap.OptimStore.sgdRun cexCfg cexInit cexEvs) .b1 0 = some 3 ∧
+    rdBuf (Synap.OptimStore.sgdRun cexCfg cexInit cexEvs).heap 3 = [3] ∧
+    rdBuf (Synap.OptimStore.sgdRun cexCfg cexInit cexEvs).heap 0 = [-4] := by
+  refine ⟨by decide, by decide, ?_, by decide, by decide, by decide, by decide, by decide, by decide,
+    by decide, by decide, by decide, by decide, by decide, by decide, by decide⟩
+  intro h
+  have := (h.sep .b1 0 .grad 0 1 (by decide) (by decide)).1
+  exact absurd this (by decide)
+
+/-! ### Non-vacuity of the hypotheses -/
+
+/-- `Inv` holds for a freshly built model with two parameters, one of them frozen … -/
+example : Inv (Synap.OptimStore.mk [[1, 2], [3]] [true, false] : Store Int) :=
+  inv_mk _ _ (by decide)
+
+/-- … the abstraction is defined there: element 1 of parameter 0 is `2`, no gradient, trainable;
+    its momentum buffer is absent … -/
+example : AbsP (Synap.OptimStore.mk [[1, 2], [3]] [true, false] : Store Int) 0 1 ⟨2, none, true⟩ :=
+  ⟨⟨0, none, true⟩, by decide, by decide, by decide, rfl⟩
+example : AbsB (Synap.OptimStore.mk [[1, 2], [3]] [true, false] : Store Int) 0 1 none :=
+  ⟨none, by decide, by decide⟩
+example : AbsMo (Synap.OptimStore.mk [[1, 2], [3]] [true, false] : Store Int) 0 1 ⟨0, 0, 0⟩ :=
+  ⟨none, none, none, none, by decide, by decide, by decide, by decide, by decide, rfl, rfl⟩
+
+/-- … a history with two backward calls per step and no zero_grad is covered at element 1 … -/
+example : ∀ e ∈ ([.backward 0 [1, 1], .backward 0 [2, 2], .step, .backward 0 [1, 0], .step] :
+    List (Synap.OptimStore.Ev Int)), (match e with
+      | .backward j g => j = 0 → 1 < g.length
+      | .backwardRoot j g => j = 0 → 1 < g.length
+      | _ => True) := by
+  intro e he
+  simp only [List.mem_cons, List.not_mem_nil, or_false] at he
+  rcases he with rfl | rfl | rfl | rfl | rfl <;> simp
+
+/-- … and after it (code variant) the places are still pairwise separated: the live ids are
+    data 0, 1, gradient 2, momentum buffer 4 (3 was the first momentum buffer, now garbage) -/
+example : Synap.OptimStore.liveIds (Synap.OptimStore.sgdRun cexCfg
+      (Synap.OptimStore.mk [[1, 2], [3]] [true, false])
+      [.backward 0 [1, 1], .backward 0 [2, 2], .step, .backward 0 [1, 0], .step]) = [0, 1, 2, 4] := by
+  decide
+
+end Counterexample
 
 end Props.C08
